@@ -167,21 +167,26 @@ fn read_body_port_message<'n>(
         return Err(WriterError::NodeNotFound("operation_name".to_string()));
     };
 
-    // if there are no parts defined we assume that the message is the same as the operation name
-    let (_name, (rust_node, _namespace)) = match in_or_out {
-        InputOrOutput::Input => port_operation
-            .input
-            .message
-            .parts
-            .iter()
-            .next()
-            .ok_or(WriterError::NodeNotFound(operation_name.to_string()))?,
-        InputOrOutput::Output => port_operation
-            .output
-            .as_ref()
-            .and_then(|o| o.message.parts.iter().next())
-            .ok_or(WriterError::NodeNotFound(operation_name.to_string()))?,
+    // if there are no parts defined the body holds the part of the message that is not bound to a header
+    let header_parts = node
+        .parent()
+        .into_iter()
+        .flat_map(|p| p.children())
+        .filter(|n| n.is_element() && n.tag_name().name() == "header")
+        .filter_map(|n| n.attribute("part"))
+        .collect::<Vec<_>>();
+    let message = match in_or_out {
+        InputOrOutput::Input => Some(&port_operation.input.message),
+        InputOrOutput::Output => port_operation.output.as_ref().map(|o| &o.message),
     };
+    let (_name, (rust_node, _namespace)) = message
+        .and_then(|m| {
+            m.parts
+                .iter()
+                .filter(|(name, _)| !header_parts.contains(&name.as_str()))
+                .min_by(|a, b| a.0.cmp(b.0))
+        })
+        .ok_or(WriterError::NodeNotFound(operation_name.to_string()))?;
 
     Ok(rust_node.clone())
 }
